@@ -506,7 +506,7 @@ def gen_site(r):
     h1, h2, sub, xh1 = site['h1'], site['h2'], site['sub.h1'], site['xh1']
     h1['/d/'] = {'body': crawl.html(
         links=['/d/a1.html', '/d/e/b.html', '/up.html', '/dd/c.html', u('h2', '/x.html'), u('sub.h1', '/d/s.html'),
-               u('xh1', '/d/t.html'), '/d/r1', '/d/r2', '/d/r3', '/d/r4'],
+               u('xh1', '/d/t.html'), '/d/r1', '/d/r2', '/d/r3', '/d/r4', '/d/busy.html', '/d/broken.html'],
         inline=['/d/i.png', u('h2', '/i2.png'), '/up.png'],
         extra='<iframe src="/d/frame.html"></iframe>')}
     depth = r.randrange(3, 6)
@@ -522,6 +522,9 @@ def gen_site(r):
         h1[p.rsplit('.', 1)[0] + '-child.html'] = {'body': 'leaf'}
     for p in ('/d/i.png', '/up.png', '/d/e/bi.png', '/d/f1.png'):
         h1[p] = {'body': 'png', 'ctype': 'image/png'}
+    # URLs that keep failing: the retry limit is one of the rules (plain 5xx; "come back later" answers with Retry-After)
+    h1['/d/busy.html'] = {'status': r.choice([503, 429]), 'body': 'later', 'headers': {'Retry-After': r.choice(['0', '1'])}}
+    h1['/d/broken.html'] = {'status': r.choice([500, 502]), 'body': 'broken'}
     h1['/d/frame.html'] = {'body': crawl.html(inline=['/d/f1.png', u('h2', '/f2.png')], links=['/d/fl.html'])}
     h1['/d/fl.html'] = {'body': 'leaf'}
     h2['/x.html'] = {'body': crawl.html(links=['/x2.html'], inline=['/xi.png'])}
@@ -591,6 +594,7 @@ def check_crawl(spec, res, repo=None):
     def parse(url):
         return _simple_parse(url)
     viol = []
+    item_requests = {}               # URL -> number of requests made for it as an item (visits that sent a request)
     prev = None                      # (item row, page) of the previous request when it was answered by a redirect
     in_scope_origins = set()
     for row in res['rows']:
@@ -632,11 +636,19 @@ def check_crawl(spec, res, repo=None):
         else:
             best = [v for v in verdicts if v[0]][0]
             item = best[3]
+            if best[2] == 'item':
+                item_requests[url] = item_requests.get(url, 0) + 1
             if best[2].startswith('hop'):
                 stats['hops'] += 1
                 if best[2] == 'hop-waived' and not in_scope_py(a, hosts, parse(url), _rec(item), parse, False)[0]:
                     stats['waived_hops'] += 1
         prev = (item, page, url) if (item is not None and page.get('status') in (301, 302, 303, 307, 308) and page.get('location')) else None
+    # the retry limit: a URL is requested as an item only while its try count is below --tries (one check-in per visit)
+    if a.get('tries'):
+        for url, n in sorted(item_requests.items()):
+            if n > a['tries']:
+                viol.append({'why': 'retry-limit-exceeded', 'url': url, 'requests_as_item': n, 'tries': a['tries']})
+        stats['retried_urls'] = len([1 for n in item_requests.values() if n > 1])
     # non-vacuity: links offered by fetched pages that the predicate forbids
     for row in res['rows']:
         ok, _ = in_scope_py(a, hosts, parse(row['url']), _rec(row), parse)
